@@ -37,12 +37,13 @@ def lockKeepsMap (s : LockMapSite) : Bool :=
   only ever combined with the lock of the SAME existing value: two PreparedStmtDB values that share `Stmts` share `Mux`. -/
 theorem C07_lock_guards_its_map : ∀ s ∈ lockMapSites, lockGuardsMap s = true ∧ lockKeepsMap s = true := by decide
 
-/-- Session{PrepareStmt} really is such a sharing site (non-vacuity of the `from` branch) — or, once Session hands the
-  registered *PreparedStmtDB itself to the new handle (repair of F14a-C14), it constructs no PreparedStmtDB at all: then no
-  second struct exists whose map could be paired with a lock -/
+/-- Session{PrepareStmt}: either it builds its own PreparedStmtDB struct and then that struct takes BOTH the map and the lock from
+  the registered cache (the sharing site — non-vacuity of the `from` branch; trees before the F14a/F14d repair), or it
+  constructs no struct that holds a lock and a map at all and hands out the registered cache itself (trees with the repair).
+  Same statement on both trees. -/
 theorem C07_session_shares_map_and_lock :
     (∃ s ∈ lockMapSites, s.fn = "DB.Session" ∧ s.strct = "PreparedStmtDB" ∧ s.mapKind = "from" ∧ s.muxKind = "from" ∧ s.mapOwner = s.muxOwner) ∨
-    (∀ s ∈ lockMapSites, s.fn = "DB.Session" → s.strct ≠ "PreparedStmtDB") := by
+    (∀ s ∈ lockMapSites, s.fn ≠ "DB.Session") := by
   decide
 
 /-- The holders a scan pool creates share nothing but the read-only *Field descriptor: every other part of a new holder is
